@@ -61,7 +61,8 @@ def op_strategies(typed=False, explicit_ids=True, fresh=False, valid_before_only
         "clear": st.just(["clear"]),
         "del": st.tuples(st.just("del"), REF, st.sampled_from(["data", "data", "data_id", "node_id", "absent"])).map(list),
         "sort": st.tuples(st.just("sort"), st.integers(-1, 40), st.sampled_from(["default", "name", "rev-name", "data_id", "len"]), st.booleans(), tri).map(list),
-        "set_data": st.tuples(st.just("set_data"), REF, st.one_of(st.none(), LABEL), st.one_of(st.none(), st.none(), IDS), tri, st.just(bool(fresh)) if not fresh else st.booleans()).map(list),
+        "set_data": st.tuples(st.just("set_data"), REF, st.one_of(st.none(), LABEL, LABEL, st.just("=")), st.one_of(st.none(), st.none(), IDS, st.just("=")), tri,
+                              st.just(bool(fresh)) if not fresh else st.booleans()).map(list),
         "rename": st.tuples(st.just("rename"), REF, LABEL).map(list),
         "meta": st.tuples(st.just("meta"), REF, st.sampled_from(["set", "set", "clear", "update", "replace"]),
                           st.one_of(st.none(), st.sampled_from(["k1", "k2"])), st.one_of(st.none(), st.integers(1, 3), st.dictionaries(st.sampled_from(["k1", "k2", "k3"]), st.integers(1, 3), max_size=2))).map(_fix_meta),
